@@ -531,7 +531,7 @@ def run(ctx: Ctx):
     t0 = time.time()
     for c in fixed_cases(ctx, geom, jnp):
         one_call(ctx, geom, ml, c, tag="witness")
-    n2, n3, nreal = (46, 5, 4) if quick else (900, 80, 120)
+    n2, n3, nreal = (46, 5, 4) if quick else (1800, 160, 240)
     for i in range(n2):
         one_call(ctx, geom, ml, gen_case(ctx, geom, jnp, 2, idx=i))
     for i in range(nreal):
